@@ -168,6 +168,9 @@ def run_harness(h, cfg, wdir):
             res['rec_unwind'] = rec
     elif res['unwind'] is not None:
         cmd += ['--unwind', str(res['unwind'])]
+    # heap blocks have the fixed arena size; keep them field-sensitive so constant propagation survives heap round trips
+    # (measured on c04_q_twin: 142 s / 3.4 M variables without, 1.7 s / 70 k variables with)
+    cmd += ['--max-field-sensitivity-array-size', str(max(64, cfg.get('fs_array', cfg['arena'])))]
     cmd += cfg.get('cbmc', [])
     cmd += [out, '--verbosity', '8', '--json-ui']
     jf = os.path.join(w, 'res.json')
@@ -330,8 +333,9 @@ def replay(pid, spec, ov, h, cfg):
         extra += cfg.get('cbmc', [])
         cmd += ['-Z', 'unstable-options', '--cbmc-args'] + extra
     try:
+        # no address-space limit here: rustc/kani-compiler reserve far more virtual memory than they touch
         r = subprocess.run(cmd, cwd=ov, env=env, stdout=subprocess.PIPE, stderr=subprocess.STDOUT, text=True,
-                           timeout=max(600, cfg['timeout'] * 4), preexec_fn=limit(cfg['mem_gb'] * 2))
+                           timeout=max(900, cfg['timeout'] * 4))
     except subprocess.TimeoutExpired:
         return None, None, 'playback generation timed out'
     tests = re.findall(r'```\s*\n(.*?)```', r.stdout, re.S)
